@@ -12,7 +12,15 @@ PROP = Property(
                   "extraction (ExtrOcamlBasic only, no Extract Constant) + OCaml 4.13.1",
                   "gen/regen.py constants (ARES__ARRAY_MIN, status codes) compiled against the working tree",
                   "harness/dsa_drv.c, ocaml/dsa_drv.ml, gen/opsgen.py (correspondence check)",
-                  "clang 14 ASan/UBSan"],
-    assumptions=["containers are hand-modelled (coq/Dsa/*.v); the tie to the C code is the correspondence run"],
+                  "clang 14 ASan/UBSan",
+                  "byte buffer: the allocator never returns a block of 2^62 bytes or more (buf_alloc_answer); "
+                  "harness/dsa_buf.c, ocaml/dsa_buf.ml, gen/opsgen_buf.py"],
+    assumptions=["containers are hand-modelled (coq/Dsa/*.v); the tie to the C code is the correspondence run",
+                 "byte buffer: cursor functions (len, consume, tag, tag_rollback, tag_clear, tag_length, set_length, "
+                 "set_position, get_position, is_const, append_finish) are generated from the C source and used inside "
+                 "the model; sizes below 2^62, byte arguments are bytes (buf_op_ok); the three fixes/C19-buf-*.patch applied"],
+    generated_fns=["ares_buf_len", "ares_buf_consume", "ares_buf_tag", "ares_buf_tag_rollback", "ares_buf_tag_clear",
+                   "ares_buf_tag_length", "ares_buf_set_length", "ares_buf_set_position", "ares_buf_get_position",
+                   "ares_buf_is_const", "ares_buf_append_finish"],
     rule="random/boundary-directed operation sequences per container; non-trivial = at least two state-changing operations succeeded in the model; distinct by case text",
 )
